@@ -23,7 +23,7 @@ func vKeyIn(rows [][]Column, k []byte) bool {
 func VH_C11(t, n, B, lim, lmax int) {
 	h := &vHoles{lmin: 0, lmax: lmax}
 	p := vTemplateC02(t, h)
-	st := vStoreForPredicate(p, n, 1, 2, 1)
+	st := vStoreForPredicate(p, n, 0, 2, 1) // the empty key included
 	for i := 0; i < n; i++ {
 		vAssume(p.evaluable(st.keys[i], st.vals[i]))
 	}
